@@ -570,16 +570,35 @@ fn ref_range(model: &FixM, m: &Node<D>) -> Option<(usize, usize)> {
 /// with itself (C19's known finding, c05 skips such trees as well): the exact sibling model is
 /// not judged there, the case is counted
 fn sibling_api_disagrees(m: &Node<D>, before: &[Node<D>], after: &[Node<D>], check_before: bool, check_after: bool) -> bool {
-  let key = |x: &Node<D>| (x.node_id(), x.range(), x.kind_id());
+  // decided with tree-sitter's own cursor (the primitive under prev_all / next_all), not through
+  // Node::prev_all / next_all themselves: a fault in those must be judged, not skipped
+  let key = |x: &Node<D>| (x.node_id(), x.range().start, x.range().end, x.kind_id());
+  let ts = m.get_ts_node();
+  let Some(p) = ts.parent() else { return false };
   if check_before {
-    let a: Vec<_> = m.prev_all().take(1000).map(|x| key(&x)).collect();
+    let mut cur = p.walk();
+    cur.goto_first_child_for_byte(ts.start_byte());
+    let mut a = vec![];
+    while cur.goto_previous_sibling() && a.len() < 1000 {
+      let x = cur.node();
+      a.push((x.id() as usize, x.start_byte() as usize, x.end_byte() as usize, x.kind_id()));
+    }
     let b: Vec<_> = before.iter().map(key).collect();
     if a != b {
       return true;
     }
   }
   if check_after {
-    let a: Vec<_> = m.next_all().take(1000).map(|x| key(&x)).collect();
+    let mut cur = p.walk();
+    cur.goto_first_child_for_byte(ts.start_byte());
+    if cur.node().id() != ts.id() {
+      return true;
+    }
+    let mut a = vec![];
+    while cur.goto_next_sibling() && a.len() < 1000 {
+      let x = cur.node();
+      a.push((x.id() as usize, x.start_byte() as usize, x.end_byte() as usize, x.kind_id()));
+    }
     let b: Vec<_> = after.iter().map(key).collect();
     if a != b {
       return true;
